@@ -115,6 +115,18 @@ class Lane(LaneBase):
                 tags.add('cyclic-state')
             lines.append('g isdag h')
             out.append('1' if g.is_dag() else '0')
+            try:
+                es = g.get_edges()
+                if es and all(impl.ety(e) == '->' for e in es):
+                    # what the CODE answers against the transcription of networkx.is_directed_acyclic_graph run on the
+                    # exported digraph (fully directed graphs only: that is when the code consults networkx)
+                    from harness.core import hxedges, hxlist
+                    nxg = g.to_networkx()
+                    lines.append(f'nxtopo isdag {hxlist([str(x) for x in nxg.nodes])} '
+                                 f'{hxedges([(str(a), str(b)) for a, b in nxg.edges])}')
+                    out.append('1' if g.is_dag() else '0')
+            except Exception:  # noqa: BLE001
+                pass
             if not oracle:
                 if g.is_dag() != isdag:
                     oracle.append(f'is_dag() = {g.is_dag()} but brute force says {isdag} after {op[0]}')
